@@ -5,7 +5,7 @@ REPO=${1:-/repo}
 cd "$REPO" || exit 2
 export GOFLAGS=-mod=mod GOPROXY=off
 OUT=$(mktemp /var/tmp/baseline.XXXXXX)
-go test -mod=mod -json -vet=off -count=1 -timeout 25m ./... > "$OUT" 2>/dev/null
+go test -mod=mod -json -vet=off -count=1 -timeout 180s ./... > "$OUT" 2>/dev/null
 python3 - "$OUT" <<'PY'
 import json,sys
 passed=set(); failed=set()
